@@ -137,7 +137,7 @@ func ParseConfig(conf string) (raw *RawConfig, err error) {
 	}
 
 	raw = new(RawConfig)
-	err = json.Unmarshal(content, &raw)
+	err = json.Unmarshal(content, raw)
 	if err != nil {
 		return
 	}
